@@ -245,6 +245,29 @@ def run(ctx, shard):
                     base = ins(nb).with_offset(Offset.from_seconds(oe), cal)
                 except Exception as ex:  # noqa: BLE001
                     ctx.exc(ex); continue
+                # values built directly from a local date-time near the edge with an offset pointing OUTWARDS: the instant does not exist
+                for out_ns in (1, 10**9, rng.randint(1, 64800 * 10**9)):
+                    oo = sgn * -1 * ((out_ns + 10**9 - 1) // 10**9 + rng.choice([0, 60]))          # offset sign that pushes local - offset beyond the edge
+                    if not -64800 <= oo <= 64800: continue
+                    Ledge = edge + sgn * 0 - (0 if sgn > 0 else 0)
+                    Lloc = edge - sgn * rng.randint(0, 10**9)                                     # local value just inside the range
+                    if not (lo <= Lloc // DAY <= hi): continue
+                    inst_would = Lloc - oo * 10**9
+                    if IMIN <= inst_would <= IMAX: continue
+                    try:
+                        ldt_e = gen.date_of(Lloc // DAY, cal).at(LocalTime.from_nanoseconds_since_midnight(Lloc % DAY))
+                        v_e = OffsetDateTime(ldt_e, Offset.from_seconds(oo))
+                    except Exception as ex:  # noqa: BLE001
+                        ctx.exc(ex); continue
+                    for nm, fn in (("to_instant", lambda: v_e.to_instant()), ("difference", lambda: v_e - ins(0).with_offset(Offset.zero)), ("in_fixed_zone+to_instant", lambda: v_e.in_fixed_zone().to_instant())):
+                        ctx.ev(); ctx.count("duration_arith"); ctx.key(("instant-outside-range", cid, sgn, nm))
+                        try:
+                            r_ = fn()
+                        except (OverflowError, ValueError) as ex:
+                            ctx.exc(ex); continue
+                        except Exception as ex:  # noqa: BLE001
+                            ctx.exc(ex); V(f"instant-outside-range-raised:{exc_key(ex)}", f"{nm} of a value whose instant lies outside the Instant range raised {ex!r}", {"kind": "odt-edge", "L": Lloc, "off": oo}, repr(ex)); continue
+                        V(f"instant-outside-range-returned:{nm.split('+')[0]}", f"local {Lloc} at offset {oo} s denotes instant {inst_would}, outside [{IMIN}, {IMAX}], but {nm} returned {r_!r} instead of raising", {"kind": "odt-edge", "L": Lloc, "off": oo}, None, inst_would)
                 for over in (1, 100, 10**9, rng.randint(1, abs(oe) * 10**9)):
                     dn = sgn * (back + over)                                                      # instant passes the edge by `over`
                     Le = nb + dn + oe * 10**9
